@@ -127,6 +127,39 @@ func readEventsRaw(path string) [][]string {
 	return out
 }
 
+// waitGroupGone waits until no process (zombies included) of process group
+// pgid is left in /proc.
+func waitGroupGone(pgid int, max time.Duration) {
+	deadline := time.Now().Add(max)
+	for time.Now().Before(deadline) {
+		found := false
+		ents, _ := os.ReadDir("/proc")
+		for _, e := range ents {
+			if _, err := strconv.Atoi(e.Name()); err != nil {
+				continue
+			}
+			b, err := os.ReadFile("/proc/" + e.Name() + "/stat")
+			if err != nil {
+				continue
+			}
+			// pid (comm) state ppid pgrp ...
+			if i := strings.LastIndexByte(string(b), ')'); i > 0 {
+				f := strings.Fields(string(b)[i+1:])
+				if len(f) > 2 {
+					if g, _ := strconv.Atoi(f[2]); g == pgid {
+						found = true
+						break
+					}
+				}
+			}
+		}
+		if !found {
+			return
+		}
+		time.Sleep(5 * time.Millisecond)
+	}
+}
+
 func lockExists(dir, psid string) bool {
 	_, err := os.Stat(filepath.Join(dir, psid, "_lock"))
 	return err == nil
@@ -200,6 +233,12 @@ loop:
 	// let orphaned jobs of a kill-mrp-only crash finish or die
 	if signalled == "kill" {
 		time.Sleep(300 * time.Millisecond)
+	}
+	if signalled == "killgroup" {
+		// The killed job processes must have been reaped before the restart:
+		// mrp recognises a dead job by its pid no longer existing, and a
+		// zombie waiting for the sandbox's init to reap it still has one.
+		waitGroupGone(cmd.Process.Pid, 15*time.Second)
 	}
 	for inc := 1; inc <= 3; inc++ {
 		if res.Incarnations[len(res.Incarnations)-1].Exit == 0 && signalled == "" {
